@@ -97,7 +97,7 @@ class Run:
         self.tmpfiles = []
 
     def _content_fp(self, blob):
-        data = content(blob.id, blob.length, blob.ckind)
+        data = content(blob.cid, blob.length, blob.ckind)
         fp = io.BytesIO(data)
         self.fps.append(fp)
         return fp
@@ -441,7 +441,7 @@ def model_view(model):
                     h = 'CATALOG'
                 else:
                     if bid not in cache:
-                        data = content(b.id, b.length, b.ckind)
+                        data = content(b.cid, b.length, b.ckind)
                         cache[bid] = ('BIT' + sha(_mask_bit(data))) if b.bit else sha(data)
                     h = cache[bid]
             elif t == 'file':
